@@ -281,9 +281,20 @@ func (s *Service) Query(inputs []*requests.Request) ([]map[string]interface{}, e
 				delete(data, "node")
 				s.FaultsApplied++
 			}
-		case "node_not_map":
-			if _, ok := data["node"]; ok && strings.Contains(in.Query, "node(id:") {
-				data["node"] = "oops"
+		case "node_not_map", "node_empty_list", "node_list", "node_number", "node_bool":
+			if old, ok := data["node"]; ok && strings.Contains(in.Query, "node(id:") {
+				switch s.faultAt(call, i) {
+				case "node_empty_list":
+					data["node"] = []interface{}{}
+				case "node_list":
+					data["node"] = []interface{}{old}
+				case "node_number":
+					data["node"] = 7
+				case "node_bool":
+					data["node"] = false
+				default:
+					data["node"] = "oops"
+				}
 				s.FaultsApplied++
 			}
 		case "deep_obj_to_empty_list", "deep_obj_to_list", "deep_obj_to_scalar", "deep_list_to_obj", "deep_list_to_scalar":
